@@ -335,16 +335,29 @@ func (e *Engine) registerJSON() {
 		}
 		return TupleV{E: []Value{mkJ(jNull(), false), mkBool(false)}}
 	}
-	I["(vrt.JSON).Str"] = func(p *Path, a []Value, site ssa.Instruction) Value { return jOf(p, a[0]).S }
+	I["(vrt.JSON).Str"] = func(p *Path, a []Value, site ssa.Instruction) Value {
+		j := jOf(p, a[0])
+		if j.Kind == JSym {
+			// the string payload (meaningful when the kind is string)
+			return j.SymS
+		}
+		return j.S
+	}
 	I["(vrt.JSON).Int"] = func(p *Path, a []Value, site ssa.Instruction) Value {
-		j := p.resolveSym(jOf(p, a[0]))
+		j := jOf(p, a[0])
+		if j.Kind == JSym {
+			return IntV{T: j.SymI}
+		}
 		if j.I == nil {
 			return mkInt(0)
 		}
 		return IntV{T: j.I}
 	}
 	I["(vrt.JSON).Bool"] = func(p *Path, a []Value, site ssa.Instruction) Value {
-		j := p.resolveSym(jOf(p, a[0]))
+		j := jOf(p, a[0])
+		if j.Kind == JSym {
+			return BoolV{T: j.SymB}
+		}
 		if j.B == nil {
 			return mkBool(false)
 		}
@@ -404,6 +417,13 @@ func (e *Engine) registerJSON() {
 		p.inputs = append(p.inputs, &Input{Name: name + ".int", Kind: "int", T: i})
 		s := p.freshStr("s_"+name+".str", 6)
 		p.inputs = append(p.inputs, &Input{Name: name + ".str", Kind: "string", Arr: s.A[0].Arr, Len: s.A[0].Len, Max: 6})
+		// payload strings are plain printable ASCII that encoding/json writes
+		// verbatim (no escapes): the text is then exactly quote+bytes+quote
+		for q := 0; q < 6; q++ {
+			b := smt.Select(s.A[0].Arr, smt.Int(int64(q)))
+			p.assert(smt.And(smt.Ge(b, smt.Int(0x20)), smt.Le(b, smt.Int(0x7e)), smt.Not(smt.Eq(b, smt.Int('"'))), smt.Not(smt.Eq(b, smt.Int('\\'))),
+				smt.Not(smt.Eq(b, smt.Int('<'))), smt.Not(smt.Eq(b, smt.Int('>'))), smt.Not(smt.Eq(b, smt.Int('&')))))
+		}
 		j := &JV{Kind: JSym, K: k, SymB: b, SymI: i, SymS: s, Name: name}
 		return p.jsonRope(j)
 	}
